@@ -10,7 +10,10 @@ Names are globally unique unless a flag asks for a collision, so that a project 
 flags off must produce byte-identical output whatever the enumeration order.
 """
 
-DIRS = ["src", "src/sub", "src/lib/deep"]
+DIRS = ["src", "src/sub", "src/lib/deep", "src/a", "src/B", "src/a-b"]
+# file stems whose sorted order separates str comparison from path-component comparison and exercises
+# upper/lower case, digits and punctuation (Project.__init__ parses sorted(set of paths))
+STEMS = ["a", "A", "a-b", "a_b", "a.b", "b", "B9", "Z", "sub", "a0", "_x", "lib"]
 
 
 class Namer:
@@ -46,7 +49,9 @@ def gen(rng, nfiles=None, clash=False, modclash=False, multiuse=False, children=
     files, modules, meta_multi, meta_children = {}, [], False, False
     for i in range(nfiles):
         d = rng.choice(DIRS)
-        fname = f"{'abcdefgh'[rng.randrange(8)]}{i}_{rng.randrange(100)}.f90"
+        fname = f"{rng.choice(STEMS)}.f90"
+        if f"{d}/{fname}" in files:
+            fname = f"{rng.choice(STEMS)}{i}_{rng.randrange(100)}.f90"
         lines = []
         mname = nm.uniq("mod")
         usable = list(modules)
